@@ -114,6 +114,14 @@ pub mod fixed {
     pub static MONO_SEC: AtomicI64 = AtomicI64::new(0);
     pub static MONO_NSEC: AtomicI64 = AtomicI64::new(0);
 
+    /// Nanoseconds by which the realtime clock advances at each read of it (0 = frozen): code that
+    /// reads the clock twice for one decision sees two different instants, as on a real machine.
+    pub static REAL_TICK_NS: AtomicI64 = AtomicI64::new(0);
+
+    pub fn set_real_tick(ns: i64) {
+        REAL_TICK_NS.store(ns, Ordering::SeqCst);
+    }
+
     pub fn set(real: (i64, i64), mono: (i64, i64)) {
         REAL_SEC.store(real.0, Ordering::SeqCst);
         REAL_NSEC.store(real.1, Ordering::SeqCst);
@@ -128,7 +136,14 @@ pub mod fixed {
                 ORDER.store((cur << 4) | ((clk as u64 + 1) & 0xf), Ordering::SeqCst);
             }
             if clk == libc::CLOCK_REALTIME || clk == libc::CLOCK_REALTIME_COARSE {
-                (REAL_SEC.load(Ordering::SeqCst), REAL_NSEC.load(Ordering::SeqCst))
+                let (s, n) = (REAL_SEC.load(Ordering::SeqCst), REAL_NSEC.load(Ordering::SeqCst));
+                let tick = REAL_TICK_NS.load(Ordering::SeqCst);
+                if tick != 0 {
+                    let t = n + tick;
+                    REAL_SEC.store(s + t.div_euclid(1_000_000_000), Ordering::SeqCst);
+                    REAL_NSEC.store(t.rem_euclid(1_000_000_000), Ordering::SeqCst);
+                }
+                (s, n)
             } else {
                 (MONO_SEC.load(Ordering::SeqCst), MONO_NSEC.load(Ordering::SeqCst))
             }
